@@ -496,8 +496,12 @@ class PyRunner(object):
         return {'docs': docs, 'indexes': list(self.coll.index_information().keys())}
 
     def raw_docs(self):
-        """the stored documents themselves (no copy, no expiry pass)"""
-        return list(self.coll._store._documents.values())
+        """the stored documents themselves (no copy, no expiry pass); [] when the store itself can
+        no longer be walked (a key changed under it: the observation of the step says so)"""
+        try:
+            return list(self.coll._store._documents.values())
+        except Exception:  # pylint: disable=broad-except
+            return []
 
 
 def canon_out(out, oids):
